@@ -164,6 +164,43 @@ def run(ctx: core.Ctx):
         ctx.sample({"spec": jobs[0][0], "seed": jobs[0][1], "status": r0["status"], "virtual_s": r0["virtual_s"], "events": r0["events"]})
     ctx.cov["traces_validated_against_impl"] = len(results)
     ctx.cov["b2_schedules"] = len(results)
+    # user-defined subclasses: values reported for a function a subclass adds or re-declares notify the update callbacks like any other
+    # modelled function (whichever class of the hierarchy was instantiated first in this process)
+    import copy as _copy
+    from .. import synth
+    from ..realobj import StubConnection, subunit_class
+    from ynca.connection import YncaProtocolStatus as _St
+    from ynca.converters import StrConverter
+    nsyn = 0
+    for c in T["classes"]:
+        base = subunit_class(c["py"])
+        base(StubConnection())
+        readable = [f for f in c["fns"] if f["get"]]
+        if not readable:
+            continue
+        f = rng.choice(readable)
+        d = getattr(base, f["attr"])
+        extra = _copy.copy(d)
+        extra.converter = StrConverter()
+        extra._name_override = "ZZEXTRA"
+        extra.initializer = d.name if not d.no_initialize else None
+        sub = type("Synth" + c["py"] + "Cb", (base,), {"zzextra": extra})
+        try:
+            obj_, conn_, sid = synth.make_initialized(sub)
+        except Exception as e:  # noqa: BLE001
+            ctx.violation(f"{c['py']} subclass that adds the text function ZZEXTRA: initialize() raised {type(e).__name__} although the sync query was answered",
+                          {"path": "synthetic", "class": c["py"]}, {"kind": "synthetic-init"})
+            continue
+        seen_ = []
+        obj_.register_update_callback(lambda fn, v, _s=seen_: _s.append((fn, v)))
+        conn_.deliver(_St.OK, sid, "ZZEXTRA", "hello")
+        conn_.deliver(_St.OK, sid, d.name, "Bogus value")
+        nsyn += 1
+        ctx.case(("synthetic", c["py"]))
+        if seen_[:1] != [("ZZEXTRA", "hello")]:
+            ctx.violation(f"{c['py']} subclass that adds the text function ZZEXTRA (parent class instantiated first): the report ZZEXTRA='hello' invoked the update callback with {seen_[:1]}",
+                          {"path": "synthetic", "class": c["py"], "seen": [list(map(str, x)) for x in seen_]}, {"kind": "synthetic-subclass"})
+    ctx.cov["synthetic_subclass_notifications"] = nsyn
     # exhaustive within a bound: every schedule up to 3 (thorough: 5) deviations from the canonical one, on small scenarios
     from .. import b2check
     from .. import gen as _gen
